@@ -130,6 +130,8 @@ _md_alone_specials_pat = re.compile(r"^(-{2,}|\*{2,}|_{3,})$|^`{3,}[^`]*$|^~{3,}
 
 def _escape_first_word_left_alone(word: str) -> str:
     if _md_alone_specials_pat.match(word):
+        if word[0] in "*_":
+            return "".join("\\" + c for c in word)
         return "\\" + word
     return word
 
@@ -144,6 +146,9 @@ def markdown_escape_word(word: str) -> str:
         # Insert backslash before the `.` or `)`
         return word[:-1] + "\\" + word[-1]
     elif _md_specials_pat.match(word):
+        if word[0] in "*_":
+            # Escape the whole run: after `\*` the rest (`**`) could still close emphasis.
+            return "".join("\\" + c for c in word)
         return "\\" + word
     return word
 
